@@ -498,14 +498,19 @@ def family_grammar(rng, costs=(0, 5), fam=None):
             rules.append(('S', ['P', 'X'] + rng.choice([[], [], ['e']]), an(), cst(), [0, 1]))
             rules.append(('P', [], rng.choice([None, an()]), 0, None))
             rules.append(('P', ['a'], an(), cst(), [0]))
-        rules.append(('X', ['Y', 'N'] + rng.choice([[], ['M']]), an(), cst(), rng.choice([[0], [0, 1]])))
-        rules.append(('Y', ['a'], an(), cst(), [0]))
-        rules.append(('Y', ['a', 'a'], an(), cst(), rng.choice([[0, 1], [1]])))
+        # (the nullable symbol at the end, before another nullable one, or in the middle before a terminal)
+        rules.append(('X', ['Y', 'N'] + rng.choice([[], ['M'], ['z'], ['z']]), an(), cst(), rng.choice([[0], [0, 1]])))
+        if rng.random() < 0.35:
+            rules.append(('Y', ['a', 'Y'], an(), cst(), rng.choice([[0, 1], [1]])))
+            rules.append(('Y', ['a'], an(), cst(), [0]))
+        else:
+            rules.append(('Y', ['a'], an(), cst(), [0]))
+            rules.append(('Y', ['a', 'a'], an(), cst(), rng.choice([[0, 1], [1]])))
         rules.append(('N', [], rng.choice([None, an()]), 0, None))
         if rng.random() < 0.5:
             rules.append(('N', ['b'], an(), cst(), [0]))
         rules.append(('M', [], None, 0, None))
-        terms = [('a', 97), ('b', 98), ('e', 101), ('c', 99), ('d', 100)]
+        terms = [('a', 97), ('b', 98), ('e', 101), ('c', 99), ('d', 100), ('z', 122)]
     elif fam == 'deepchains':
         # one leaf reached through unit chains of different depth, the alternatives told apart by
         # the terminal that follows: FIRST/FOLLOW and dynamic contexts need several passes,
